@@ -130,7 +130,7 @@ struct Conn {
 	qb_ipcs_connection_t *sc = NULL;
 	qb_ipcc_connection_t *cc = NULL;
 	bool accepted_cb = false, accept_ok = false, created = false, closed_done = false, destroyed = false;
-	int closed_calls = 0, closed_retries_left = 0;
+	int closed_calls = 0, closed_retries_left = 0, closed_retry_salt = 0;
 	bool in_created_cb = false, disc_in_created = false;
 	int app_refs = 0;
 	uint32_t max_msg = 0;
@@ -513,7 +513,12 @@ static int32_t cb_closed(qb_ipcs_connection_t *sc)
 	c->closed_calls++;
 	c->server_gone = true;
 	fire(T_CLOSED, c);
-	if (c->closed_retries_left > 0) { c->closed_retries_left--; count(p_closed_retry); return 1; }
+	if (c->closed_retries_left > 0) {
+		// "if you return anything but 0 this function will be repeatedly called" (qbipcs.h): positive and negative values alike
+		static const int32_t VALS[4] = { 1, -1, 5, -7 };
+		c->closed_retries_left--; count(p_closed_retry);
+		return c->closed_retry_salt == 0 ? 1 : VALS[(size_t)(c->closed_calls + c->closed_retry_salt) % 4];
+	}
 	c->closed_done = true;
 	return 0;
 }
@@ -615,7 +620,7 @@ static void do_server_op(const Op &op, Conn *ctx)
 		qb_ipcs_destroy(G.svc);
 		break; }
 	case K_S_CLOSED_RETRY:
-		if (ctx) ctx->closed_retries_left = (int)std::max<int64_t>(0, std::min<int64_t>(3, op.a[3]));
+		if (ctx) { ctx->closed_retries_left = (int)std::max<int64_t>(0, std::min<int64_t>(3, op.a[3])); ctx->closed_retry_salt = (int)(((op.a[4] % 4) + 4) % 4); }
 		break;
 	case K_S_DIE:
 		count(p_server_died);
@@ -1525,7 +1530,7 @@ static void gen(const char *prop, RunSpec &spec)
 				if (r.chance(3, 4)) p.add(0, K_S_ITERATE, tr, -1, nth);
 				else p.add(0, K_S_RATE, tr, -1, nth, r.below(5));
 			}
-			else if (k < 86) p.add(0, K_S_CLOSED_RETRY, T_CREATED, conn, 0, r.range(1, 3));
+			else if (k < 86) p.add(0, K_S_CLOSED_RETRY, T_CREATED, conn, 0, r.range(1, 3), r.below(4));
 			else if (k < 92) p.add(0, K_S_DESTROY, T_TICK, -1, r.range(2, 40));
 			else p.add(0, K_S_STATS, T_TICK, -1, r.range(1, 30));
 		} else if (w == 3 && k < 70) {
